@@ -38,22 +38,34 @@ impl Join {
     }
 
     pub fn trigger(&self) {
+        #[cfg(may_verif)]
+        crate::verif::pt("join.trigger.store", crate::verif::addr(self), 0, 0);
         self.state.store(false, Ordering::Release);
+        #[cfg(may_verif)]
+        crate::verif::pt("join.trigger.take", crate::verif::addr(self), 0, 0);
         if let Some(w) = self.to_wake.take() {
             w.unpark();
         }
     }
 
     fn wait(&self) {
+        #[cfg(may_verif)]
+        crate::verif::pt("join.wait.load1", crate::verif::addr(self), 0, 0);
         if self.state.load(Ordering::Acquire) {
             let cur = Blocker::current();
             // register the blocker first
+            #[cfg(may_verif)]
+            crate::verif::pt("join.wait.reg", crate::verif::addr(self), crate::verif::addr(&*cur), 0);
             self.to_wake.store(cur.clone());
             // re-check the state
+            #[cfg(may_verif)]
+            crate::verif::pt("join.wait.load2", crate::verif::addr(self), 0, 0);
             if self.state.load(Ordering::Acquire) {
                 // successfully register the blocker
                 cur.park(None).ok();
             } else {
+                #[cfg(may_verif)]
+                crate::verif::pt("join.wait.unreg", crate::verif::addr(self), 0, 0);
                 self.to_wake.take();
             }
         }
@@ -94,6 +106,8 @@ impl<T> JoinHandle<T> {
 
     /// return true if the coroutine is finished
     pub fn is_done(&self) -> bool {
+        #[cfg(may_verif)]
+        crate::verif::pt("join.is_done", crate::verif::addr(&*self.join), 0, 0);
         !self.join.state.load(Ordering::Acquire)
     }
 
@@ -106,6 +120,8 @@ impl<T> JoinHandle<T> {
     pub fn join(self) -> Result<T> {
         self.join.wait();
 
+        #[cfg(may_verif)]
+        crate::verif::pt("join.take_packet", crate::verif::addr(&*self.join), 0, 0);
         // take the result
         self.packet
             .take()
